@@ -157,6 +157,47 @@ pub fn gen_size(g: &mut Gen, mode: Mode, cfg: &PicCfg) -> Size {
     }
 }
 
+/// Does the tree under test accept pictures whose header switches on (a) the UMV mode bit in an
+/// intra picture, (b) Reference Picture Selection mode? Asked once per process with two minimal
+/// intra pictures on fresh decoders. The properties promise decoding for valid pictures of the
+/// baseline syntax; a decoder that cleanly refuses an optional mode it does not implement is
+/// within them, so the generators only switch these bits on where the tree accepts them at all
+/// (what it then does with the pictures that follow is judged in full). A panic counts as
+/// "accepted": the checks will then meet and report it.
+static MODES: std::sync::OnceLock<(bool, bool)> = std::sync::OnceLock::new();
+
+/// The probe's answer, if this process asked (for the evidence file).
+pub fn optional_modes_if_probed() -> Option<(bool, bool)> {
+    MODES.get().copied()
+}
+
+pub fn optional_modes_accepted() -> (bool, bool) {
+    *MODES.get_or_init(|| {
+        let probe = |plus: PlusForm, size: Size, umv: bool, rps: bool| -> bool {
+            let mut hdr = Header::standard(PicType::I, size, 7);
+            hdr.plus = plus;
+            hdr.umv = umv;
+            hdr.rps = rps;
+            hdr.tr = 3;
+            let (mbw, mbh) = hdr.mb_dims().unwrap();
+            let mut mbs = Vec::new();
+            for n in 0..mbw * mbh {
+                let mut mb = Mb::new(MbKind::Intra);
+                for b in 0..6 {
+                    mb.blocks[b].dc = 60 + ((n + b) % 100) as u8;
+                }
+                mbs.push(mb);
+            }
+            let pic = Pic { hdr, mbs, trailing_zero_bits: 0 };
+            let mut st = h263_rs::H263State::new(crate::dec::options(Mode::Standard, false));
+            !matches!(crate::dec::decode_bytes(&mut st, &encode_pic(&pic)), crate::dec::Outcome::Err(_))
+        };
+        let umv = probe(PlusForm::Baseline, Size::Sqcif, true, false) && probe(PlusForm::Full, Size::StdCustom(16, 16), true, false);
+        let rps = probe(PlusForm::Full, Size::StdCustom(16, 16), false, true);
+        (umv, rps)
+    })
+}
+
 pub fn gen_header(g: &mut Gen, mode: Mode, version: u8, size: Size, ptype: PicType) -> Header {
     let mut h = match mode {
         Mode::Sorenson => Header::sorenson(version, ptype, size, 1),
@@ -205,11 +246,11 @@ pub fn gen_header(g: &mut Gen, mode: Mode, version: u8, size: Size, ptype: PicTy
     }
     if mode == Mode::Standard && ptype == PicType::I {
         // an optional mode that means nothing for an intra picture, switched on in its header
-        h.umv = g.chance(1, 4);
+        h.umv = g.chance(1, 4) && optional_modes_accepted().0;
     }
     if mode == Mode::Standard && h.plus == PlusForm::Full {
         // Reference Picture Selection mode, never selecting anything but the previous picture
-        h.rps = g.chance(1, 5);
+        h.rps = g.chance(1, 5) && optional_modes_accepted().1;
     }
     h
 }
@@ -377,6 +418,36 @@ fn gen_events_pooled(g: &mut Gen, hdr: &Header, first: usize) -> Vec<Event> {
     ev
 }
 
+/// One time in eight, block `b` of a detailed macroblock repeats - INTRADC and events - the block
+/// that precedes it in its plane: block `b` of the previous macroblock (for the first luma block
+/// also that macroblock's last luma block), or the previous luma block of this macroblock. Equal
+/// neighbouring blocks, possibly under different quantizers (a +Q macroblock in between), are what
+/// flat or periodic picture content produces.
+fn repeat_neighbour(g: &mut Gen, hdr: &Header, mb: &mut Mb, b: usize, first: usize) {
+    if !g.chance(1, 8) {
+        return;
+    }
+    let v1 = hdr.is_v1();
+    let which = g.below(3);
+    if (1..4).contains(&b) && which == 2 {
+        let (dc, ev) = (mb.blocks[b - 1].dc, mb.blocks[b - 1].events.clone());
+        mb.blocks[b].dc = dc;
+        mb.blocks[b].events = ev;
+        return;
+    }
+    if let Some((f, v, blocks)) = &g.last_mb {
+        if *f == first && *v == v1 {
+            let src = if b == 0 && which == 1 { 3 } else { b };
+            mb.blocks[b].dc = blocks[src].0;
+            mb.blocks[b].events = blocks[src].1.clone();
+        }
+    }
+}
+
+fn remember_mb(g: &mut Gen, hdr: &Header, mb: &Mb, first: usize) {
+    g.last_mb = Some((first, hdr.is_v1(), mb.blocks.iter().map(|b| (b.dc, b.events.clone())).collect()));
+}
+
 /// Content density: probability (out of 16) that a macroblock gets fully detailed content.
 fn detail_odds(total_mbs: usize, cfg: &PicCfg) -> u32 {
     // a detailed macroblock costs roughly 60 words on average
@@ -398,7 +469,9 @@ pub fn gen_intra_mb(g: &mut Gen, hdr: &Header, detailed: bool, allow_q: bool) ->
         for b in 0..6 {
             mb.blocks[b].dc = gen_intradc(g);
             mb.blocks[b].events = gen_events_pooled(g, hdr, 1);
+            repeat_neighbour(g, hdr, &mut mb, b, 1);
         }
+        remember_mb(g, hdr, &mb, 1);
     } else {
         // cheap macroblock: one tape word; DC levels spread over the blocks and two low-frequency
         // coefficients (horizontal and vertical gradient) so that every sample of the block is
@@ -456,10 +529,15 @@ pub fn gen_inter_mb(g: &mut Gen, hdr: &Header, detailed: bool) -> Mb {
             mb.blocks[b].dc = gen_intradc(g);
         }
         if detailed {
-            mb.blocks[b].events = gen_events_pooled(g, hdr, if kind.is_intra() { 1 } else { 0 });
+            let first = if kind.is_intra() { 1 } else { 0 };
+            mb.blocks[b].events = gen_events_pooled(g, hdr, first);
+            repeat_neighbour(g, hdr, &mut mb, b, first);
         } else if g.chance(1, 6) {
             mb.blocks[b].events = gen_events(g, hdr, if kind.is_intra() { 1 } else { 0 }, Shape::Single);
         }
+    }
+    if detailed {
+        remember_mb(g, hdr, &mb, if kind.is_intra() { 1 } else { 0 });
     }
     mb
 }
@@ -475,6 +553,7 @@ fn maybe_stuffing(g: &mut Gen) -> u8 {
 pub fn gen_intra_pic_with(g: &mut Gen, cfg: &PicCfg, mode: Mode, version: u8, size: Size) -> Pic {
     let hdr = gen_header(g, mode, version, size, PicType::I);
     g.block_pool.clear();
+    g.last_mb = None;
     let (mbw, mbh) = hdr.mb_dims().unwrap();
     let total = mbw * mbh;
     let odds = detail_odds(total, cfg);
@@ -564,6 +643,7 @@ pub fn gen_inter_pic(g: &mut Gen, cfg: &PicCfg, like: &Header, ptype: PicType, a
     let mut hdr = gen_header(g, like.mode, like.version, size, ptype);
     follow(&mut hdr, like);
     g.block_pool.clear();
+    g.last_mb = None;
     let (mbw, mbh) = hdr.mb_dims().unwrap();
     let total = mbw * mbh;
     let odds = detail_odds(total, cfg);
